@@ -31,11 +31,11 @@ RULE = (
     "file > defaults), also visible in which tabulate_tensor_<type> pointer is set, in the options banner and in the presence of "
     "tensor-factor tables. Non-trivial = >= 2 option sources disagree on a key, or >= 2 named objects; distinct by case hash."
 )
-P_FORMS = {"measures": ["dx", "ds"], "ids": "simple", "max_integrals": 2, "depth": 1, "maxdeg": 2, "max_qdeg": 3, "p_scheme": 0.0, "ncoef": (0, 2)}
+P_FORMS = {"measures": ["dx", "ds"], "ids": "simple", "max_integrals": 2, "depth": 1, "maxdeg": 2, "max_qdeg": 3, "p_scheme": 0.0, "ncoef": (0, 2), "same_args": True}
 P_TP = {"cells": ["quadrilateral"], "measures": ["dx"], "tp": True, "maxdeg": 2, "max_integrals": 1, "depth": 1, "manifold": 0.0, "min_qdeg": 2,
         "max_qdeg": 3, "p_scheme": 0.0, "p_vertex": 0.0, "ncoef": (0, 1), "ids": "simple"}
 DEFAULTS = {"scalar_type": "float64", "sum_factorization": False, "table_rtol": 1e-6, "table_atol": 1e-9, "epsilon": 1e-14, "verbosity": 30,
-            "language": "C", "part": "full"}
+            "language": "C", "part": "full"}  # ffcx.options.FFCX_DEFAULT_OPTIONS as documented in the README / options.py docstrings
 STEMS = ["forms", "my-forms.v2", "Poisson 2D", "a_b", "x9.y.z", "__w__"]
 FORM_NAMES = ["a", "L", "M"]
 
@@ -47,7 +47,7 @@ def sanitise(name):
 
 @st.composite
 def option_source(draw, allow_sumfact):
-    keys = ["scalar_type", "table_rtol", "table_atol", "epsilon", "verbosity"] + (["sum_factorization"] if allow_sumfact else [])
+    keys = ["scalar_type", "table_rtol", "table_atol", "epsilon", "verbosity", "part"] + (["sum_factorization"] if allow_sumfact else [])
     out = {}
     for k in keys:
         if draw(st.integers(0, 2)) == 0:
@@ -55,6 +55,8 @@ def option_source(draw, allow_sumfact):
                 out[k] = draw(st.sampled_from(["float32", "float64", "complex128"]))
             elif k == "sum_factorization":
                 out[k] = draw(st.booleans())
+            elif k == "part":
+                out[k] = draw(st.sampled_from(["full", "diagonal", "diagonal"]))
             elif k == "verbosity":
                 out[k] = draw(st.sampled_from([30, 40, 50, 0]))
             elif k == "epsilon":
@@ -69,7 +71,7 @@ def option_source(draw, allow_sumfact):
 def cases(draw):
     tp = draw(st.integers(0, 3)) == 0
     nforms = draw(st.integers(1, 3))
-    forms = [draw(strategies.form_specs(P_TP if tp else P_FORMS)) for _ in range(nforms)]
+    forms = [draw(strategies.form_specs(P_TP) if tp else strategies.forms(P_FORMS)) for _ in range(nforms)]
     exprs = [] if tp else [draw(strategies.expr_specs({"maxdeg": 2, "p_facet": 0.0})) for _ in range(draw(st.integers(0, 2)))]
     stem = draw(st.sampled_from(STEMS))
     cli = draw(option_source(tp))
@@ -156,7 +158,7 @@ def evaluate(case, wd):
     builts = [specs.build(f, form_name=FORM_NAMES[k]) for k, f in enumerate(case["forms"])]
     ebuilts = [specs.build(e, form_name=f"ex{k}") for k, e in enumerate(case["exprs"])]
     objects = [b.obj for b in builts] + [b.obj for b in ebuilts]
-    api_opts = {k: eff[k] for k in ("scalar_type", "sum_factorization", "table_rtol", "table_atol", "epsilon", "verbosity")}
+    api_opts = {k: eff[k] for k in ("scalar_type", "sum_factorization", "table_rtol", "table_atol", "epsilon", "verbosity", "part")}
     try:
         ref_mod = kernels.compile_module(objects, api_opts, workdir=wd / "api", name="api")
         api_error = None
@@ -229,9 +231,9 @@ def evaluate(case, wd):
     if not m or m.group(1) != st_eff:
         return viol("options", f"effective scalar_type is {st_eff} (cli={case['cli']}, pwd={case['pwd']}, xdg={case['xdg']}) but the generated banner says "
                     f"{m.group(1) if m else None}")
-    for key in ("sum_factorization", "table_rtol", "table_atol", "epsilon", "verbosity"):
+    for key in ("sum_factorization", "table_rtol", "table_atol", "epsilon", "verbosity", "part"):
         m = re.search(r"'%s':\s*([^,}\n]+)" % key, header)
-        got = m.group(1).strip() if m else None
+        got = m.group(1).strip().strip("'\"") if m else None
         exp = eff[key]
         ok = got is not None and (str(exp) == got or (not isinstance(exp, bool) and _num_eq(got, exp)))
         if not ok:
@@ -266,8 +268,9 @@ def evaluate(case, wd):
         for itype, sid in fr_api.declared_groups():
             nent = formcheck.entity_count(f["cell"], itype)
             ent = (nent - 1, 0)
-            A1, p1, n1, _ = fr_cli.run_group(itype, sid, data, entity=ent)
-            A2, p2, n2, _ = fr_api.run_group(itype, sid, data, entity=ent)
+            diag = eff["part"] == "diagonal" and len(f["args"]) == 2
+            A1, p1, n1, _ = fr_cli.run_group(itype, sid, data, entity=ent, diagonal=diag)
+            A2, p2, n2, _ = fr_api.run_group(itype, sid, data, entity=ent, diagonal=diag)
             if A2 is None:
                 continue
             if A1 is None or np.asarray(A1).tobytes() != np.asarray(A2).tobytes():
